@@ -44,6 +44,39 @@ fn run_tcyl(dmin: f64, dmaj: f64, pitch: f64, length: f64, seg: u64, li: f64, lo
     r.g("tree", dump1(move || verif_hooks::threaded_cylinder(dmin, dmaj, pitch, length, seg, li, lo, left, center)));
     (req, r)
 }
+fn first_poly(t: &Scad) -> Option<(&Pt3s, usize)> {
+    if let ScadOp::Polyhedron { points, faces, .. } = &t.op {
+        return Some((points, faces.len()));
+    }
+    for c in &t.children {
+        if let Some(r) = first_poly(c) {
+            return Some(r);
+        }
+    }
+    None
+}
+/// long fine threads (tens of thousands of steps): only the points of the thread mesh are passed on,
+/// the Lean side evaluates the oracles on them (no model run: the model's builder is quadratic)
+#[allow(clippy::too_many_arguments)]
+fn run_tcylbig(dmin: f64, dmaj: f64, pitch: f64, length: f64, seg: u64, li: f64, lo: f64, left: bool) -> (String, Res) {
+    let req = format!("tcylbig {} {} {} {} {} {} {} {}", tf(dmin), tf(dmaj), tf(pitch), tf(length), tu(seg), tf(li), tf(lo), tb(left));
+    let mut r = Res::new();
+    r.g("pts", guard(move || {
+        let t = verif_hooks::threaded_cylinder(dmin, dmaj, pitch, length, seg, li, lo, left, false);
+        let (pts, nf) = first_poly(&t).expect("thread mesh");
+        let mut o = format!("{} L{}", tu(nf as u64), pts.len());
+        for p in pts.iter() {
+            o.push(' ');
+            o.push_str(&tf(p.x));
+            o.push(' ');
+            o.push_str(&tf(p.y));
+            o.push(' ');
+            o.push_str(&tf(p.z));
+        }
+        o
+    }));
+    (req, r)
+}
 #[allow(clippy::too_many_arguments)]
 fn run_part(kind: &'static str, m: i64, length: f64, head: f64, seg: u64, li: f64, lo: f64, chamf: bool, left: bool) -> (String, Res) {
     let req = format!("{} {} {} {} {} {} {} {} {}", kind, ti(m), tf(length), tf(head), tu(seg), tf(li), tf(lo), tb(chamf), tb(left));
@@ -125,6 +158,19 @@ pub fn generate(rng: &mut Rng, thorough: bool, out: &mut Out, for_c14: bool) {
             out.case(q, r);
         }
     }
+    if !for_c14 {
+        // long, fine threads: step counts past 2^13 (quick) and 2^16 (both tiers: one case), many segments
+        let mut big: Vec<(f64, f64, f64, u64)> = vec![(2.0, 0.4, 100.0, 360), (3.0, 0.5, 20.0, 256)];
+        if thorough {
+            big.push((1.6, 0.35, 150.0, 400));
+            big.push((6.0, 1.0, 300.0, 128));
+        }
+        for (k, (dmaj, pitch, length, seg)) in big.into_iter().enumerate() {
+            let dmin = dmaj - 1.0825 * pitch;
+            let (q, r) = run_tcylbig(dmin, dmaj, pitch, length, seg, if k % 2 == 0 { 0.0 } else { 90.0 }, if k % 2 == 0 { 0.0 } else { 45.0 }, k % 2 == 1);
+            out.case(q, r);
+        }
+    }
     set_plain(false);
 }
 
@@ -134,6 +180,7 @@ pub fn replay(toks: &[&str], out: &mut Out) -> bool {
     let (q, r) = match toks[0] {
         "lookup" => run_lookup(t.i()),
         "table" => run_table(),
+        "tcylbig" => run_tcylbig(t.f(), t.f(), t.f(), t.f(), t.u(), t.f(), t.f(), t.b()),
         "tcyl" => run_tcyl(t.f(), t.f(), t.f(), t.f(), t.u(), t.f(), t.f(), t.b(), t.b()),
         "rod" => run_part("rod", t.i(), t.f(), t.f(), t.u(), t.f(), t.f(), t.b(), t.b()),
         "tap" => run_part("tap", t.i(), t.f(), t.f(), t.u(), t.f(), t.f(), t.b(), t.b()),
